@@ -150,10 +150,11 @@ pub fn check_spec(ctx: &Ctx, ap: &Airports, s: &Spec) -> Check {
     let toml_forms: Vec<String> = match s.scheme {
         0 | 4 => {
             let h = if s.scheme == 4 { "0.0.0.0".to_string() } else { s.host.clone() };
-            vec![format!("tcp = \"{}:{}\"", h, s.port), format!("tcp = {{ address = \"{}\", port = {} }}", h, s.port)]
+            // the long table form may name a jump host (ssh tunnel): the endpoint, hence the serial, stays the same
+            vec![format!("tcp = \"{}:{}\"", h, s.port), format!("tcp = {{ address = \"{}\", port = {} }}", h, s.port), format!("tcp = {{ address = \"{}\", port = {}, jump = \"user@gateway.example\" }}", h, s.port)]
         }
         1 => vec![format!("udp = \"{}:{}\"", host_or_any, s.port)],
-        2 => vec![format!("websocket = \"ws://{}:{}/{}\"", s.host, s.port, s.path), format!("websocket = {{ url = \"ws://{}:{}/{}\" }}", s.host, s.port, s.path)],
+        2 => vec![format!("websocket = \"ws://{}:{}/{}\"", s.host, s.port, s.path), format!("websocket = {{ url = \"ws://{}:{}/{}\" }}", s.host, s.port, s.path), format!("websocket = {{ url = \"ws://{}:{}/{}\", jump = \"gw\" }}", s.host, s.port, s.path)],
         _ => vec![],
     };
     for t in toml_forms {
@@ -212,7 +213,7 @@ fn spec(ap: &Airports) -> impl Strategy<Value = Spec> {
 
 fn nasty() -> impl Strategy<Value = String> {
     let frags = vec![
-        "", "foo", ":", ":abc", ":99999", ":0", ":-1", "udp://host", "udp://", "tcp://", "ws://", "ws://h", "rtlsdr:", "rtlsdr://", "http://default", "192.168.0.1:10003", "192.168.0.1:10003@LFPG", "localhost:10003", "tcp://h:p", "tcp://h:70000", "tcp://:1", "tcp://[::1", "tcp://h:1@(", "tcp://h:1@[", "tcp://h:1@a{1000000000}", "tcp://h:1@(a{1000}){1000}", "tcp://h:1@\\", "tcp://h:1@*", "tcp://h:1@+", "tcp://h:1@?", "tcp://h:1@@", "tcp://h:1??", "tcp://h:1@LFPG@LFBO", "tcp://h:1@43.3,", "tcp://h:1@,", "tcp://h:1@1,2,3", "tcp://h:1@nan,nan", "tcp://h:1@inf,-inf", "tcp://h:1@1e400,1", "@", "?", "@LFPG", "/", "//", "///:4003", "/:", "/:x", "tcp:///:", "tcp:///:x", "tcp:///:99999", "udp:///x", "ws:///", "\u{0}", "tcp://\u{e9}:1", "tcp://h:1@\u{1f6e9}", "%", "%zz", "tcp://h:1@%28", "a b", "\t", "[", "(", "(?P<x>", "tcp://user:pw@host:1", "tcp://host:1#frag",
+        "", "foo", ":", ":abc", ":99999", ":0", ":-1", "udp://host", "udp://", "tcp://", "ws://", "ws://h", "rtlsdr:", "rtlsdr://", "http://default", "192.168.0.1:10003", "192.168.0.1:10003@LFPG", "localhost:10003", "tcp://h:p", "tcp://h:70000", "tcp://:1", "tcp://[::1", "tcp://h:1@(", "tcp://h:1@[", "tcp://h:1@a{1000000000}", "tcp://h:1@(a{1000}){1000}", "tcp://h:1@\\", "tcp://h:1@*", "tcp://h:1@+", "tcp://h:1@?", "tcp://h:1@@", "tcp://h:1??", "tcp://h:1@LFPG@LFBO", "tcp://h:1@43.3,", "tcp://h:1@,", "tcp://h:1@1,2,3", "tcp://h:1@nan,nan", "tcp://h:1@-12.5", "tcp://h:1@43", "-12.5", "43", "1e3", ".5", "tcp://h:1@1,2,3,4", "tcp://h:1@ 1 , 2 ", "tcp://h:1@,1", "tcp://h:1@1;2", "tcp://h:1@inf,-inf", "tcp://h:1@1e400,1", "@", "?", "@LFPG", "/", "//", "///:4003", "/:", "/:x", "tcp:///:", "tcp:///:x", "tcp:///:99999", "udp:///x", "ws:///", "\u{0}", "tcp://\u{e9}:1", "tcp://h:1@\u{1f6e9}", "%", "%zz", "tcp://h:1@%28", "a b", "\t", "[", "(", "(?P<x>", "tcp://user:pw@host:1", "tcp://host:1#frag",
     ];
     let frag = proptest::sample::select(frags.into_iter().map(|s| s.to_string()).collect::<Vec<_>>());
     prop_oneof![
@@ -231,6 +232,8 @@ fn nasty() -> impl Strategy<Value = String> {
             v.into_iter().collect()
         }),
         2 => any::<String>(),
+        // number-like references: none, one, two, three or four parts, signs, exponents, empty parts
+        2 => ("([-+]?[0-9]{0,3}(\\.[0-9]{0,3})?(e[0-9]{1,3})?[,; ]?){0,4}", any::<bool>()).prop_map(|(r, bare)| if bare { r } else { format!("tcp://h:1@{r}") }),
         1 => "[ -~]{0,40}",
         1 => "(tcp|udp|ws|rtlsdr|http)?(:|://|:///)?[a-z0-9.:\\[\\]]{0,20}[@?]?[A-Za-z0-9,.({\\[\\\\*+-]{0,12}",
     ]
